@@ -299,7 +299,7 @@ func c02(c *Ctx) {
 				cc := cs.Common()
 				nm := ""
 				if cc.IsInvoke() {
-					nm = cc.Method.Name()
+					nm = engine.MethodName(cc.Method)
 				} else if sc := cc.StaticCallee(); sc != nil {
 					nm = engine.ShortName(sc)
 				}
@@ -651,7 +651,7 @@ func nonDebug(rs []ssa.Instruction) []ssa.Instruction {
 
 func calleeLabel(call *ssa.Call) string {
 	if call.Call.IsInvoke() {
-		return call.Call.Method.Name()
+		return engine.MethodName(call.Call.Method)
 	}
 	if sc := call.Call.StaticCallee(); sc != nil {
 		return engine.BaseName(sc)
@@ -745,7 +745,7 @@ func broadcastsParam(fn *ssa.Function) (int, bool) {
 		cc := cs.Common()
 		nm := ""
 		if cc.IsInvoke() {
-			nm = cc.Method.Name()
+			nm = engine.MethodName(cc.Method)
 		} else if sc := cc.StaticCallee(); sc != nil {
 			nm = engine.ShortName(sc)
 		}
@@ -769,7 +769,7 @@ func broadcastsParam(fn *ssa.Function) (int, bool) {
 				icc := ics.Common()
 				inm := ""
 				if icc.IsInvoke() {
-					inm = icc.Method.Name()
+					inm = engine.MethodName(icc.Method)
 				} else if sc := icc.StaticCallee(); sc != nil {
 					inm = engine.ShortName(sc)
 				}
@@ -860,11 +860,11 @@ func c02writesAreAnnounced(c *Ctx) {
 			if !cc.IsInvoke() || !engine.IsNamed(cc.Value.Type(), "db", "Transaction") {
 				continue
 			}
-			want, ok := pairs[cc.Method.Name()]
+			want, ok := pairs[engine.MethodName(cc.Method)]
 			if !ok {
 				continue
 			}
-			counts[cc.Method.Name()]++
+			counts[engine.MethodName(cc.Method)]++
 			top := topFn(f)
 			found := false
 			for _, g := range c.withPackageHelpers(top, engine.RelPkg(P.OwnPkgPath(top)), 1) {
@@ -878,7 +878,7 @@ func c02writesAreAnnounced(c *Ctx) {
 					}
 				}
 			}
-			R.Check(found, "R02.9", c.name(top)+"|tx."+cc.Method.Name()+" announced", P.Pos(cs.Pos()), "the function builds "+strings.Join(want, " / "), "tx."+cc.Method.Name()+" is called in a function that does not build the matching announcement ("+strings.Join(want, " / ")+"): the index changes without the sessions that have the mailbox selected being told")
+			R.Check(found, "R02.9", c.name(top)+"|tx."+engine.MethodName(cc.Method)+" announced", P.Pos(cs.Pos()), "the function builds "+strings.Join(want, " / "), "tx."+engine.MethodName(cc.Method)+" is called in a function that does not build the matching announcement ("+strings.Join(want, " / ")+"): the index changes without the sessions that have the mailbox selected being told")
 		}
 	}
 	R.Min("R02.9", "tx.RemoveMessagesFromMailbox call sites", counts["RemoveMessagesFromMailbox"], 2)
